@@ -143,6 +143,17 @@ add('C13', 'model_checking',
     TRUSTED + ' Where a write sits relative to the result events of its test is measured under stock unittest.',
     'TLA+ spec + TLC model checking + TLC validation of real runs against P- and I-spec', 'DESIGN.md 5/C13')
 
+add('C18', 'model_checking',
+    'TLC (GlobalState.tla) checks Runner.run as a pipeline - catch_warnings, global_setup / late_setup / '
+    'early_teardown / global_teardown of Coverage, Profiling, gc Threshold, gc Debug and Traceback, the per-test '
+    'startTest / body / stopTest steps - for all 2^8 option subsets x 7 endings of the test phase x caller with / '
+    'without own trace and profile hooks: every global restored at return and at raise, termination, mid-run state '
+    'as predicted; seven deviation configs each give a counterexample. Real runs in a fresh interpreter each, started '
+    'from a non-default caller state, over option subsets (thorough: all 2^7) x 10 endings: TLC compares the '
+    'snapshots taken before, inside a test, and after the run (returned or raised).',
+    TRUSTED + ' Named non-goals: doctest report flags, pdb.set_trace, the root logging handler.',
+    'TLA+ spec + TLC model checking (safety + liveness) + TLC validation of real snapshots', 'DESIGN.md 5/C18')
+
 NOT_YET = {
 }
 
